@@ -56,6 +56,8 @@ ASSUMPTIONS = [
     "cancel() must clean up the tree that stands when it is called and what a SIGTERM-surviving solver forks during the 0.5 s "
     "grace period (judged by the late-fork probes, fork triggered by the SIGTERM itself); forks after the final listing are "
     "outside the property",
+    "solve_end_to_end is modelled by `pipeline` (core hit / first job / refinement / second job, eight kinds of solver reply); "
+    "tied by the stub-solver runs (all reply pairs with scripted Popen, a few pairs with a real sh stub)",
     "real-subprocess verdicts never come from an elapsed-time threshold: readiness, survival and delivery are decided from "
     "/proc state, future state and worker-thread liveness; waits that run out are counted as real:slow:* without verdict",
 ]
@@ -1853,6 +1855,253 @@ def _real_process_runs(ctx, n_runs, P, rng, escaped, forced=None):
 
 
 # --------------------------------------------------------------------------------------------------------------------
+# the two-step pipeline: real solve_end_to_end / solve_low_level / PopenFuture / PopenExecutor over a scripted stub solver
+# --------------------------------------------------------------------------------------------------------------------
+
+REPLIES = ["satValid", "satInvalid", "unsat", "unknown", "hang", "crash", "garbage", "noStart"]
+REPLY_TEXT = {
+    "satValid": ("sat\n(\n  (define-fun halmos_x_uint256_00 () (_ BitVec 256) #x01)\n)\n", "", 0),
+    "satInvalid": ("sat\n(\n  (define-fun f_evm_bvmul_256 ((x!0 (_ BitVec 256)) (x!1 (_ BitVec 256))) (_ BitVec 256) #x00)\n)\n", "", 0),
+    "unsat": ("unsat\n(error \"model is not available\")\n(<7> <9>)\n", "", 0),
+    "unknown": ("unknown\n(error \"model is not available\")\n", "", 0),
+    "crash": ("", "Segmentation fault\n", 139),
+    "garbage": ("(error \"line 3: unknown logic\")\nsat\n", "", 1),
+}
+QUERY_ABSTRACT = ("(declare-fun f_evm_bvmul_256 ((_ BitVec 256) (_ BitVec 256)) (_ BitVec 256))\n"
+                  "(declare-const x (_ BitVec 256))\n(assert (= (f_evm_bvmul_256 x x) x))")
+QUERY_PLAIN = "(declare-const x (_ BitVec 256))\n(assert (= x x))"
+KEY_PIPE_UNSAT = "pipeline:unsat-without-solver-answer"
+KEY_PIPE_TIMEOUT = "pipeline:refined-timeout-or-error-not-reported"
+
+
+def pipeline_probe(ctx, drv, literals):
+    """every (first reply x second reply) x {refinement changes the query?} x {context already refined?} x {unsat-core hit?}
+    x {cache_solver?}: the real solve_end_to_end with real PopenFuture/PopenExecutor threads; only `Popen`/`psutil` are a
+    scripted stub solver (answers at once, or never: then the job's time limit fires). Compared with `pipeline` of the
+    Lean model, and judged directly: unsat only if a job that ran printed unsat (or a known core was hit); a job that
+    timed out / crashed / printed garbage in the deciding step is unknown / err."""
+    import itertools
+    import shutil
+    import tempfile
+    import psutil as real_psutil
+    P, S = mods()
+    tmp = tempfile.mkdtemp(prefix="c17_pipe_")
+    script = {}
+    started = []
+
+    class StubProc:
+        def __init__(self, cmd, stdout=None, stderr=None, text=None, **kw):
+            which = "first" if not started else "second"
+            self.reply = script[which]
+            started.append((which, self.reply, cmd[-1].endswith(".refined.smt2")))
+            if self.reply == "noStart":
+                raise FileNotFoundError(2, "No such file or directory", cmd[0])
+            self.cmd, self.pid, self.alive = cmd, 4242 + len(started), True
+            self.returncode = None
+            self.stdout = self.stderr = self.stdin = None
+
+        def communicate(self, input=None, timeout=None):
+            if self.reply == "hang":
+                if timeout is None:
+                    raise HarnessError("stub solver would hang forever: no time limit was passed to communicate()")
+                raise subprocess.TimeoutExpired(self.cmd, timeout)
+            out, err, rc = REPLY_TEXT[self.reply]
+            self.alive, self.returncode = False, rc
+            return out, err
+
+        def poll(self):
+            return None if self.alive else self.returncode
+
+    class StubPs:
+        def __init__(self, pid):
+            self.pid = pid
+            self.proc = next((p for p in procs if p.pid == pid), None)
+            if self.proc is None or not self.proc.alive:
+                raise real_psutil.NoSuchProcess(pid)
+
+        def children(self, recursive=False):
+            return []
+
+        def terminate(self):
+            self.proc.alive, self.proc.returncode = False, -15
+
+        def wait(self, timeout=None):
+            return self.proc.returncode
+
+        def is_running(self):
+            return self.proc.alive
+
+        def kill(self):
+            self.proc.alive, self.proc.returncode = False, -9
+
+    procs = []
+
+    def stub_popen(cmd, **kw):
+        p = StubProc(cmd, **kw)
+        procs.append(p)
+        return p
+
+    fake_psutil = types.SimpleNamespace(Process=StubPs, NoSuchProcess=real_psutil.NoSuchProcess,
+                                        TimeoutExpired=real_psutil.TimeoutExpired)
+    old = (P.Popen, P.psutil)
+    P.Popen, P.psutil = stub_popen, fake_psutil
+    limits = sorted(set([7.5, 0.001] + [float(x) for x in literals]))
+    cases, reqs = [], []
+    try:
+        n = 0
+        for r1, r2 in itertools.product(REPLIES, REPLIES):
+            for changes, refined, core, cache in itertools.product((True, False), (False, True), (False, True), (False, True)):
+                # the full product for the refinement path; elsewhere the second reply cannot matter: two values of it
+                if not (r1 == "satInvalid" and changes and not refined and not core) and r2 not in ("unsat", "hang"):
+                    continue
+                if cache and (n % 3):          # cache_solver only changes the dump and the unsat core: every third case
+                    n += 1
+                    continue
+                n += 1
+                script.update(first=r1, second=r2)
+                del started[:]
+                del procs[:]
+                limit = limits[n % len(limits)]
+                args = types.SimpleNamespace(resolved_solver_command=["stub-solver"], verbose=0,
+                                             solver_timeout_assertion=limit, cache_solver=cache)
+                sctx = types.SimpleNamespace(dump_dir=Path(tmp), executor=P.PopenExecutor(),
+                                             unsat_cores=[["7", "9"]] if core else [])
+                query = S.SMTQuery(QUERY_ABSTRACT if changes else QUERY_PLAIN, ["3", "7", "9"])
+                pctx = S.PathContext(args=args, path_id=n, solving_ctx=sctx, query=query, is_refined=refined)
+                box = {}
+
+                def body(pctx=pctx, box=box):
+                    try:
+                        box["out"] = S.solve_end_to_end(pctx)
+                    except BaseException as e:  # noqa: BLE001
+                        box["exc"] = e
+
+                th = threading.Thread(target=body, daemon=True)
+                th.start()
+                th.join(30)
+                desc = {"kind": "pipeline", "first": r1, "second": r2, "changes": changes, "is_refined": refined,
+                        "core_hit": core, "cache_solver": cache, "limit": limit}
+                if th.is_alive():
+                    ctx.violation("pipeline:solve_end_to_end-does-not-return", f"solve_end_to_end blocked for {desc}", desc)
+                    continue
+                if "exc" in box:
+                    got, rc = ("raisedShutdown" if isinstance(box["exc"], P.ShutdownError) else "raisedOther"), None
+                    if isinstance(box["exc"], HarnessError):
+                        ctx.violation("pipeline:no-time-limit-passed", str(box["exc"]), desc)
+                        continue
+                else:
+                    res = box["out"].result
+                    got, rc = (res if isinstance(res, str) else str(res)), box["out"].returncode
+                ran = list(started)
+                ctx.case(("pipeline", r1, r2, changes, refined, core, cache))
+                ctx.count(f"pipeline:first:{r1}")
+                ctx.count(f"pipeline:jobs:{len(ran)}")
+                ctx.count(f"pipeline:outcome:{got}")
+                # --- judged directly -------------------------------------------------------------------------------
+                answered_unsat = any(j[1] == "unsat" for j in ran)
+                if got == "unsat" and not (core or answered_unsat):
+                    ctx.violation(KEY_PIPE_UNSAT,
+                                  f"solve_end_to_end reported unsat although no solver job answered unsat: jobs run {ran} "
+                                  f"(first reply {r1}, refined reply {r2})", desc)
+                if ran and got not in ("raisedOther", "raisedShutdown"):
+                    last = ran[-1][1]
+                    if len(ran) == 2 and not ran[1][2]:
+                        ctx.violation("pipeline:second-job-not-on-refined-query", f"second job ran on {ran}", desc)
+                    want_last = {"hang": "unknown", "crash": "err", "garbage": "err", "unknown": "unknown"}.get(last)
+                    if want_last and got != want_last and not (got == "unsat" and not (core or answered_unsat)):
+                        ctx.violation(KEY_PIPE_TIMEOUT, f"the deciding job {ran[-1]} ended as {last}; solve_end_to_end reported {got}", desc)
+                    if last == "hang" and got == "unknown" and rc != S.EXIT_TIMEDOUT:
+                        ctx.violation("pipeline:timeout-returncode", f"timeout reported with returncode {rc}", desc)
+                if any(p.alive for p in procs):
+                    ctx.violation("pipeline:stub-solver-left-running", f"a timed out stub solver was not killed: {desc}", desc)
+                cases.append((desc, got, len(ran)))
+                reqs.append(f"pipe {int(core)} {int(refined)} {int(changes)} {r1} {r2}")
+    finally:
+        P.Popen, P.psutil = old
+        shutil.rmtree(tmp, ignore_errors=True)
+    bad = []
+    for (desc, got, njobs), rep in zip(cases, drv.ask(reqs)):
+        if rep != f"ok {got} {njobs}":
+            bad.append(f"pipeline {desc}: model `{rep}`, real code `{got}` with {njobs} job(s)")
+    ctx.note(f"pipeline probe: {len(cases)} cases of solve_end_to_end over the stub solver, {len(bad)} differ from the model")
+    return bad
+
+
+STUB_SH = r"""
+d="$1"; f="$2"
+case "$f" in *.refined.smt2) r=$(cat "$d/second");; *) r=$(cat "$d/first");; esac
+echo "start $r" >> "$d/log"
+case "$r" in
+  satValid) printf 'sat\n(\n  (define-fun halmos_x_uint256_00 () (_ BitVec 256) #x01)\n)\n';;
+  satInvalid) printf 'sat\n(\n  (define-fun f_evm_bvmul_256 ((x!0 (_ BitVec 256)) (x!1 (_ BitVec 256))) (_ BitVec 256) #x00)\n)\n';;
+  unsat) printf 'unsat\n';;
+  unknown) printf 'unknown\n';;
+  hang) exec sleep 1000;;
+  crash) echo "done $r" >> "$d/log"; kill -SEGV $$;;
+  garbage) printf '(error "unknown logic")\n'; echo "done $r" >> "$d/log"; exit 1;;
+esac
+echo "done $r" >> "$d/log"
+"""
+
+
+def pipeline_real_stub(ctx, P, S):
+    """a few pairs of the pipeline again, with the stub solver as a real OS process (sh script told what to answer for the
+    abstract and for the refined query) and a 3 s time limit. A non-hanging job that did not get to answer in time (load)
+    makes the case `slow`, without verdict."""
+    import os
+    import shutil
+    import tempfile
+    expect = {"satValid": "sat", "unsat": "unsat", "unknown": "unknown", "hang": "unknown", "crash": "err", "garbage": "err"}
+    for r1, r2 in [("satInvalid", "hang"), ("satInvalid", "crash"), ("satInvalid", "unsat"), ("satInvalid", "satValid"),
+                   ("satInvalid", "garbage"), ("satInvalid", "unknown"), ("hang", "unsat"), ("unsat", "hang")]:
+        d = tempfile.mkdtemp(prefix="c17_stub_")
+        desc = {"kind": "pipeline-real", "first": r1, "second": r2}
+        try:
+            Path(d, "stub.sh").write_text(STUB_SH)
+            Path(d, "first").write_text(r1)
+            Path(d, "second").write_text(r2)
+            Path(d, "log").write_text("")
+            args = types.SimpleNamespace(resolved_solver_command=["sh", os.path.join(d, "stub.sh"), d], verbose=0,
+                                         solver_timeout_assertion=3.0, cache_solver=False)
+            sctx = types.SimpleNamespace(dump_dir=Path(d), executor=P.PopenExecutor(), unsat_cores=[])
+            pctx = S.PathContext(args=args, path_id=1, solving_ctx=sctx, query=S.SMTQuery(QUERY_ABSTRACT, ["3"]))
+            box = {}
+
+            def body(pctx=pctx, box=box):
+                try:
+                    box["out"] = S.solve_end_to_end(pctx)
+                except BaseException as e:  # noqa: BLE001
+                    box["exc"] = e
+
+            th = threading.Thread(target=body, daemon=True)
+            th.start()
+            th.join(120)
+            ctx.case(("pipeline-real", r1, r2))
+            ctx.count("pipeline-real:cases")
+            log = Path(d, "log").read_text().split("\n")
+            if th.is_alive() or "exc" in box:
+                ctx.count("real:slow:pipeline-stub-did-not-finish(no verdict)")
+                continue
+            res = box["out"].result
+            got = res if isinstance(res, str) else str(res)
+            jobs = [l.split()[1] for l in log if l.startswith("start ")]
+            answered = [l.split()[1] for l in log if l.startswith("done ")]
+            # a job that was meant to answer but was overtaken by the time limit (load): no verdict
+            if any(j != "hang" and j not in answered for j in jobs) or not jobs:
+                ctx.count("real:slow:pipeline-stub-overtaken-by-time-limit(no verdict)")
+                continue
+            want = expect[jobs[-1]] if jobs[-1] != "satInvalid" else "sat"
+            if got == "unsat" and "unsat" not in answered:
+                ctx.violation(KEY_PIPE_UNSAT, f"real stub solver: solve_end_to_end reported unsat, jobs answered {jobs}", desc)
+            elif got != want:
+                ctx.violation(KEY_PIPE_TIMEOUT, f"real stub solver: jobs {jobs}, solve_end_to_end reported {got}, expected {want}", desc)
+        finally:
+            with __import__("contextlib").suppress(Exception):
+                sctx.executor.shutdown(wait=False)
+            shutil.rmtree(d, ignore_errors=True)
+
+
+# --------------------------------------------------------------------------------------------------------------------
 # entry points
 # --------------------------------------------------------------------------------------------------------------------
 
@@ -2120,9 +2369,11 @@ def correspond(ctx):
             mismatch = f"[{source}] cfg {r.cfg}: {bad}"
     ctx.sample({"cfg": runs[-1][0].cfg, "labels": runs[-1][0].labels, "final": runs[-1][0].final})
 
+    mismatches += pipeline_probe(ctx, drv, literals)[:2]
     ctx.note(f"t+{time.time() - ctx.t0:.0f}s: model comparison done")
     # --- 5. real subprocesses ------------------------------------------------------------------------------------------
     real_process_runs(ctx, ctx.scale(17, 150), literals)
+    pipeline_real_stub(ctx, *mods())
 
     if mismatch:
         mismatches.append(mismatch)
@@ -2146,6 +2397,14 @@ def follow_loose(labels):
 
 def replay(ctx, data) -> bool:
     d = data.get("replay", data)
+    if d.get("kind") == "pipeline-real":
+        pipeline_real_stub(ctx, *mods())
+        want = data.get("key")
+        return any(v["key"] == want for v in ctx.violations) if want else bool(ctx.violations)
+    if d.get("kind") == "pipeline":
+        pipeline_probe(ctx, ctx.lean("Popen"), [])
+        want = data.get("key")
+        return any(v["key"] == want for v in ctx.violations) if want else bool(ctx.violations)
     if d.get("kind") == "late-fork":
         P, _S = mods()
         for _ in range(2):
